@@ -40,14 +40,24 @@ def main():
             ufl.Coefficient(V), ufl.Constant(m), ufl.TrialFunction(V)
     if mode == "reverse":
         cases = cases[::-1]
-    if mode == "isolated":
-        # every case in a process of its own (forked before anything was compiled): no history at all
+    if mode == "isolated" or mode.startswith("shift:"):
+        # every case in a process of its own (forked before anything was compiled): no history at all;
+        # shift:k -- k unrelated UFL objects of every counted kind are created first, so that every global UFL
+        # counter the case sees is k higher (k = 1..10 moves each pair of neighbouring counts across 9|10 once)
+        shift = int(mode.split(":")[1]) if mode.startswith("shift:") else 0
         for c in cases:
             r, w = os.pipe()
             pid = os.fork()
             if pid == 0:
                 os.close(r)
                 try:
+                    if shift:
+                        import basix.ufl
+                        import ufl
+                        for _ in range(shift):
+                            m_ = ufl.Mesh(basix.ufl.element("P", "triangle", 1, shape=(2,)))
+                            V_ = ufl.FunctionSpace(m_, basix.ufl.element("P", "triangle", 1))
+                            ufl.Coefficient(V_), ufl.Constant(m_), ufl.Argument(V_, 0)
                     t = gen(c["code"], lang)
                     msg = hashlib.sha1(t.encode()).hexdigest()
                 except BaseException as e:  # noqa: BLE001
